@@ -1,16 +1,27 @@
 import I18n.Model.Plural
 import I18n.Lemmas.EvalSpec
 import I18n.Lemmas.ParseSound
+import I18n.Lemmas.ParseString
+import I18n.Lemmas.LRNoCrash
+import I18n.Lemmas.ParseCFG
+import I18n.Lemmas.LexRegex
 import I18n.Generated.PluralGrammar
 import I18n.Spec.PluralY
 /-!
-# C04 (evaluation clause) — plural expressions are evaluated exactly as C would
+# C04 — plural expressions are parsed and evaluated exactly as C/gettext would
 
-`Spec.mathEval` is lazy mathematical evaluation over ℤ that records every evaluated intermediate
-result.  In-range unsigned C arithmetic coincides with ℤ arithmetic, so the right-hand sides below
-*are* "the value C arithmetic yields when every evaluated intermediate result lies in `[0, 2^bits)`
-and no executed division has a zero divisor".  Stated for every width `bits ≥ 1` (the tool uses 32)
-about the `Evaluator` generated from lib/intexpr.py.
+Evaluation clause: `Spec.mathEval` is lazy mathematical evaluation over ℤ that records every evaluated intermediate
+result.  In-range unsigned C arithmetic coincides with ℤ arithmetic, so the right-hand sides below *are* "the value
+C arithmetic yields when every evaluated intermediate result lies in `[0, 2^bits)` and no executed division has a
+zero divisor".  Stated for every width `bits ≥ 1` (the tool uses 32) about the `Evaluator` generated from
+lib/intexpr.py.
+
+Parsing clause: three models of `gettext.parse_plural_expression`, proved to be one function —
+* the lexer interpreted from the dumped regular expressions (`PluralLex.lex`) = the hand-written lexer model
+  (`PluralParse.lex`) = plural.y's token language (`Spec.Tokens`);
+* rply's LR driver over the dumped LALR tables (`PluralLR.lrParse`) = the recursive-descent model
+  (`PluralParse.parseToks`) = the stratified C grammar (`Spec.D`, unambiguous), whose sentences are those of
+  plural.y's ambiguous grammar (`Spec.Amb`) = the context-free language of the dumped productions (`Spec.Gen`).
 -/
 namespace I18n.Props.C04
 open I18n I18n.Py I18n.Plural I18n.Spec I18n.Generated.Intexpr
@@ -76,23 +87,212 @@ theorem eval_value_range {bits : Nat} (hb : 1 ≤ bits) (n : Int) (e : Expr) (v 
 
 /-! ## Parsing clause -/
 
-/-- **Grammar pin.**  The lexer rules (with their order), the precedence ladder, the productions and the
-    operator tables that lib/intexpr.py hands to rply are exactly plural.y's; no regex flag is set.
-    Regenerated from the live objects on every run: any edit to the declarations breaks this `decide`. -/
+/-- **Pins of what the models read from the dump.**  The dumped lexer and ignore rules are *readable* by the regex
+    interpreter and mean the rules `PluralLex.R` / `PluralLex.Ig` (a behaviour-preserving respelling of a regex, e.g.
+    `\\?` for `[?]`, leaves this true); no regex flag is set; the operator→`ast` class tables the action functions
+    close over and the `int()` digit limit are what the models assume.  (The precedence rows and productions are not
+    pinned as text any more: `lr_iff_derives`, `lr_language_is_declared_grammar` are proved about the tables and the
+    productions rply actually built from them.) -/
 theorem grammar_pin :
-    Generated.PluralGrammar.lexerRules = Spec.PluralY.lexerRules ∧
-    Generated.PluralGrammar.ignoreRules = Spec.PluralY.ignoreRules ∧
+    PluralLex.parseRules Generated.PluralGrammar.lexerRules = some PluralLex.R ∧
+    Generated.PluralGrammar.ignoreRules.mapM PluralLex.parseRegex = some PluralLex.Ig ∧
     Generated.PluralGrammar.extraFlags = [] ∧
-    Generated.PluralGrammar.precedence = Spec.PluralY.precedence ∧
-    Generated.PluralGrammar.productions = Spec.PluralY.productions ∧
     Generated.PluralGrammar.opTable = Spec.PluralY.opTable ∧
-    Generated.PluralGrammar.intMaxStrDigits = PluralParse.maxStrDigits := by decide
+    Generated.PluralGrammar.intMaxStrDigits = PluralParse.maxStrDigits :=
+  ⟨PluralLex.rules_eq, PluralLex.ignore_eq, by decide, by decide, by decide⟩
 
-/-- **Structure.**  Whatever the parser model accepts is derived by the stratified C grammar
+/-- **Tokens.**  The lexer model (rply's loop: rules in declaration order, first match wins, greedy regexes)
+    accepts a string with token list `ts` iff `ts` is its tokenisation by plural.y's token language
+    (`Spec.Tokens`: the lexemes `? : || && == != < <= > >= + - * / % ! ( ) n` and decimal numerals, each the
+    longest lexeme at its position, separated by blanks and tabs only). -/
+theorem lex_complete_sound (s : List Char) (ts : List PluralParse.Tok) :
+    PluralParse.lex s = .ok ts ↔ Spec.Tokens s ts := PluralParse.lex_iff_tokens s ts
+
+/-- a string has at most one tokenisation -/
+theorem tokens_unique {s : List Char} {ts ts' : List PluralParse.Tok} (h : Spec.Tokens s ts) (h' : Spec.Tokens s ts') :
+    ts = ts' := PluralParse.tokens_functional h h'
+
+/-- no tokenisation ⇒ the lexer's syntax error, never another outcome -/
+theorem lex_rejects_iff (s : List Char) : PluralParse.lex s = .syntaxError ↔ ¬ ∃ ts, Spec.Tokens s ts :=
+  PluralParse.lex_syntaxError_iff s
+
+/-- **The lexer regenerated from the source.**  `PluralLex.lex` interprets the regular expressions dumped from the
+    live rply `Lexer` (a `re.match` for the syntax subset they use: literals, classes with ranges and `\t`, greedy `+`
+    and `?` with backtracking) inside rply's `LexerStream.next` loop; it is the same function as the hand-written
+    lexer model — so `lex_complete_sound` speaks about the rules the tool declares, whatever they are today. -/
+theorem lex_regex_eq (s : List Char) :
+    PluralLex.lex s = match PluralParse.lex s with
+      | .ok ts => .ok ts | .syntaxError => .lexingError | .valueError => .crash := by
+  rw [PluralLex.lex_eq]; cases PluralParse.lex s <;> rfl
+
+theorem lex_regex_iff_tokens (s : List Char) (ts : List PluralParse.Tok) :
+    PluralLex.lex s = .ok ts ↔ Spec.Tokens s ts := by
+  rw [← lex_complete_sound, lex_regex_eq]
+  cases PluralParse.lex s <;> simp
+
+/-- neither an unreadable rule, nor an empty match, nor an unknown token text ever occurs -/
+theorem lex_regex_never_crashes (s : List Char) : PluralLex.lex s ≠ .crash := by
+  rw [lex_regex_eq]
+  cases h : PluralParse.lex s with
+  | ok ts => simp
+  | syntaxError => simp
+  | valueError => exact absurd h (PluralParse.lexGo_never_valueError _ s none (Nat.le_refl _))
+
+/-- **Structure, soundness.**  Whatever the parser model accepts is derived by the stratified C grammar
     (`Spec.D`: `?:` right-associative and lowest, then `||`, `&&`, `== !=`, `< <= > >=`, `+ -`, `* / %`
     left-associative, then `!`, then primaries) with exactly the returned AST. -/
 theorem parse_sound (ts : List PluralParse.Tok) (e : Expr) (h : PluralParse.parseToks ts = some e) :
     Spec.D 0 ts e := PluralParse.parseToks_sound h
+
+/-- **Structure, completeness.**  Every derivation of the stratified C grammar is found, with the recursion
+    budget (`9 * length + 9`) the model actually uses. -/
+theorem parse_complete (ts : List PluralParse.Tok) (e : Expr) (d : Spec.D 0 ts e) :
+    PluralParse.parseToks ts = some e := PluralParse.parseToks_complete d
+
+/-- **Structured with C precedence and associativity**: the parser returns `e` iff the C grammar derives `e` … -/
+theorem parse_iff_derives (ts : List PluralParse.Tok) (e : Expr) :
+    PluralParse.parseToks ts = some e ↔ Spec.D 0 ts e := PluralParse.parseToks_iff ts e
+
+/-- … and the C grammar is unambiguous: one AST per token list (at every level). -/
+theorem derives_functional {k : Nat} {ts : List PluralParse.Tok} {e e' : Expr} (d : Spec.D k ts e) (d' : Spec.D k ts e') :
+    e = e' := PluralParse.D_functional d d'
+
+/-- **Accepted language = L(plural.y)**: a token list is accepted iff plural.y's (ambiguous, precedence-free)
+    expression grammar generates it. -/
+theorem accept_iff_plural_y (ts : List PluralParse.Tok) :
+    (∃ e, PluralParse.parseToks ts = some e) ↔ Spec.Amb ts := PluralParse.accept_iff_amb ts
+
+/-- **End to end, on strings.**  `parse_plural_expression(s)` returns the tree `e` iff `s` tokenises (plural.y's
+    token language) into a list from which the C grammar derives `e`; -/
+theorem parse_string_iff (s : List Char) (e : Expr) :
+    PluralParse.parse s = .ok e ↔ ∃ ts, Spec.Tokens s ts ∧ Spec.D 0 ts e := PluralParse.parse_ok_iff s e
+
+/-- it accepts `s` iff `s` is a sentence of plural.y; -/
+theorem accept_string_iff (s : List Char) :
+    (∃ e, PluralParse.parse s = .ok e) ↔ ∃ ts, Spec.Tokens s ts ∧ Spec.Amb ts := PluralParse.parse_accepts_iff s
+
+/-- and every other string gets the syntax error (no third outcome). -/
+theorem reject_string_iff (s : List Char) :
+    PluralParse.parse s = .syntaxError ↔ ¬ ∃ ts, Spec.Tokens s ts ∧ Spec.Amb ts := PluralParse.parse_syntaxError_iff s
+
+/-! ## The parser the tool runs: rply's LR driver over the LALR tables it built
+
+`Generated.PluralLR` holds `lr_action`, `lr_goto`, `default_reductions` and the numbered productions (with the
+names of their action functions) dumped from the live `LRParser` object on every run; `PluralLR.lrParse` is
+`LRParser.parse` + `_reduce_production` + the action functions of lib/intexpr.py over those tables. -/
+
+/-- the action-table columns are the lexer's token names in declaration order, then `$end`; the goto columns are
+    `exp`, `start`; every dumped action function is one the model knows (`tables` resolves) -/
+theorem lr_tables_pin :
+    Generated.PluralLR.terminals = PluralLR.colNames ∧ Generated.PluralLR.nonterminals = ["exp", "start"] ∧
+    PluralLR.tables.isSome = true := ⟨PluralLR.columns_pin.1, PluralLR.columns_pin.2, by rw [PluralLR.tables_eq]; rfl⟩
+
+/-- **The table-driven parser computes the C grammar.**  Over the tables rply built from the current source, the
+    LR driver returns the tree `e` for a token list iff the recursive-descent model does, i.e. (`parse_iff_derives`)
+    iff the stratified C grammar derives `e`: every shift/reduce conflict of the ambiguous grammar was resolved the
+    way C's precedence and associativity demand. -/
+theorem lr_iff_parse (ts : List PluralParse.Tok) (e : Expr) :
+    PluralLR.lrParse ts = .ok e ↔ PluralParse.parseToks ts = some e := PluralLR.lrParse_ok_iff ts e
+
+/-- **… as a function.**  The LR driver never ends in the model's `crash` outcome (missing table entry, ill-shaped
+    reduction, popped bottom marker, non-`Expr` result, exhausted turn budget): on every token list it answers
+    exactly what the recursive-descent model answers. -/
+theorem lr_eq_parse (ts : List PluralParse.Tok) :
+    PluralLR.lrParse ts = match PluralParse.parseToks ts with | some e => .ok e | none => .syntaxError :=
+  PluralLR.lrParse_eq ts
+
+theorem lr_never_crashes (ts : List PluralParse.Tok) : PluralLR.lrParse ts ≠ .crash := by
+  rw [lr_eq_parse]
+  cases PluralParse.parseToks ts <;> simp
+
+/-- on strings: `gettext.parse_plural_expression` modelled with the LR driver = modelled with recursive descent -/
+theorem lr_parse_string_eq (s : List Char) : PluralLR.parse s = .inl (PluralParse.parse s) := by
+  unfold PluralLR.parse PluralParse.parse
+  cases PluralParse.lex s with
+  | syntaxError => rfl
+  | valueError => rfl
+  | ok ts =>
+    simp only [lr_eq_parse]
+    cases PluralParse.parseToks ts <;> rfl
+
+theorem lr_iff_derives (ts : List PluralParse.Tok) (e : Expr) :
+    PluralLR.lrParse ts = .ok e ↔ Spec.D 0 ts e := by rw [lr_iff_parse, parse_iff_derives]
+
+/-- its accepted language is L(plural.y) -/
+theorem lr_accept_iff_plural_y (ts : List PluralParse.Tok) : (∃ e, PluralLR.lrParse ts = .ok e) ↔ Spec.Amb ts := by
+  rw [← accept_iff_plural_y]
+  exact ⟨fun ⟨e, h⟩ => ⟨e, (lr_iff_parse ts e).1 h⟩, fun ⟨e, h⟩ => ⟨e, (lr_iff_parse ts e).2 h⟩⟩
+
+/-- **`Amb` is not a transcription to be trusted**: it is the language of the productions the tool hands to rply
+    (dumped from the live parser every run), read as a plain context-free grammar with start symbol `start`. -/
+theorem plural_y_is_declared_grammar (ts : List PluralParse.Tok) :
+    Spec.Gen PluralParse.dumpedProductions ["start"] ts ↔ Spec.Amb ts := PluralParse.gen_iff_amb ts
+
+/-- **rply's table construction, validated for this grammar**: the tables it built accept exactly the language of
+    the grammar it was given (no sentence lost or gained by LALR merging or by precedence-based conflict resolution) … -/
+theorem lr_language_is_declared_grammar (ts : List PluralParse.Tok) :
+    (∃ e, PluralLR.lrParse ts = .ok e) ↔ Spec.Gen PluralParse.dumpedProductions ["start"] ts := by
+  rw [plural_y_is_declared_grammar]; exact lr_accept_iff_plural_y ts
+
+/-- the two hand-written token-kind maps (column of the action table, grammar symbol name) agree through the dumped
+    column names -/
+theorem kind_columns_agree (t : PluralParse.Tok) :
+    Generated.PluralLR.terminals[PluralLR.col (some t)]? = some (Spec.kindName t) := by
+  cases t with
+  | bool op => cases op <;> rfl
+  | cmp op => cases op <;> rfl
+  | bin op => cases op <;> rfl
+  | _ => rfl
+
+/-- end to end with the LR driver in the place of the recursive-descent model -/
+theorem lr_parse_string_iff (s : List Char) (e : Expr) :
+    PluralLR.parse s = .inl (.ok e) ↔ ∃ ts, Spec.Tokens s ts ∧ Spec.D 0 ts e := by
+  rw [← parse_string_iff]
+  unfold PluralLR.parse PluralParse.parse
+  cases hl : PluralParse.lex s with
+  | syntaxError => simp
+  | valueError => simp
+  | ok ts =>
+    simp only
+    cases hr : PluralLR.lrParse ts with
+    | ok e' =>
+      have := (lr_iff_parse ts e').1 hr
+      simp [this]
+    | syntaxError =>
+      cases hp : PluralParse.parseToks ts with
+      | none => simp
+      | some e' => rw [(lr_iff_parse ts e').2 hp] at hr; cases hr
+    | crash =>
+      cases hp : PluralParse.parseToks ts with
+      | none => simp
+      | some e' => rw [(lr_iff_parse ts e').2 hp] at hr; cases hr
+
+example : PluralLR.lrParse [.var, .bool .or, .int 0, .bool .and, .var] =
+    .ok (.boolop .or .name (.boolop .and (.num 0) .name)) := by decide
+example : PluralLR.lrParse [.var, .var] = .syntaxError := by decide
+
+/-! Non-vacuity: registry expressions and their trees (Polish, Russian, Slovenian; Arabic from the gettext manual). -/
+example : PluralParse.parse "n==1 ? 0 : n%10>=2 && n%10<=4 && (n%100<10 || n%100>=20) ? 1 : 2".toList = .ok
+    (.ifexp (.compare .name .eq (.num 1)) (.num 0) (.ifexp (.boolop .and (.boolop .and (.compare (.binop .name .mod (.num 10)) .gte (.num 2)) (.compare (.binop .name .mod (.num 10)) .lte (.num 4))) (.boolop .or (.compare (.binop .name .mod (.num 100)) .lt (.num 10)) (.compare (.binop .name .mod (.num 100)) .gte (.num 20)))) (.num 1) (.num 2))) := by rfl
+example : PluralParse.parse "n%10==1 && n%100!=11 ? 0 : n%10>=2 && n%10<=4 && (n%100<10 || n%100>=20) ? 1 : 2".toList = .ok
+    (.ifexp (.boolop .and (.compare (.binop .name .mod (.num 10)) .eq (.num 1)) (.compare (.binop .name .mod (.num 100)) .noteq (.num 11))) (.num 0) (.ifexp (.boolop .and (.boolop .and (.compare (.binop .name .mod (.num 10)) .gte (.num 2)) (.compare (.binop .name .mod (.num 10)) .lte (.num 4))) (.boolop .or (.compare (.binop .name .mod (.num 100)) .lt (.num 10)) (.compare (.binop .name .mod (.num 100)) .gte (.num 20)))) (.num 1) (.num 2))) := by rfl
+example : PluralParse.parse "n%100==1 ? 0 : n%100==2 ? 1 : n%100==3 || n%100==4 ? 2 : 3".toList = .ok
+    (.ifexp (.compare (.binop .name .mod (.num 100)) .eq (.num 1)) (.num 0) (.ifexp (.compare (.binop .name .mod (.num 100)) .eq (.num 2)) (.num 1) (.ifexp (.boolop .or (.compare (.binop .name .mod (.num 100)) .eq (.num 3)) (.compare (.binop .name .mod (.num 100)) .eq (.num 4))) (.num 2) (.num 3)))) := by rfl
+example : PluralParse.parse "n==0 ? 0 : n==1 ? 1 : n==2 ? 2 : n%100>=3 && n%100<=10 ? 3 : n%100>=11 ? 4 : 5".toList = .ok
+    (.ifexp (.compare .name .eq (.num 0)) (.num 0) (.ifexp (.compare .name .eq (.num 1)) (.num 1) (.ifexp (.compare .name .eq (.num 2)) (.num 2) (.ifexp (.boolop .and (.compare (.binop .name .mod (.num 100)) .gte (.num 3)) (.compare (.binop .name .mod (.num 100)) .lte (.num 10))) (.num 3) (.ifexp (.compare (.binop .name .mod (.num 100)) .gte (.num 11)) (.num 4) (.num 5)))))) := by rfl
+/-- the specification side is inhabited too: a derivation written out by hand, and the lexer corner cases -/
+example : Spec.D 0 [.var, .bin .sub, .int 1, .bin .sub, .int 2] (.binop (.binop .name .sub (.num 1)) .sub (.num 2)) :=
+  (parse_iff_derives _ _).1 (by rfl)
+example : Spec.Tokens "n !=\t12".toList [.var, .cmp .noteq, .int 12] := (lex_complete_sound _ _).1 (by rfl)
+example : ¬ ∃ ts, Spec.Tokens "n ! = 1".toList ts := (lex_rejects_iff _).1 (by rfl)
+example : ¬ ∃ ts, Spec.Tokens "n & n".toList ts := (lex_rejects_iff _).1 (by rfl)
+example : ¬ ∃ ts, Spec.Tokens "n = 1".toList ts := (lex_rejects_iff _).1 (by rfl)
+example : ¬ ∃ ts, Spec.Tokens "n\n".toList ts := (lex_rejects_iff _).1 (by rfl)
+example : ¬ Spec.Amb [.var, .var] := fun h => by
+  obtain ⟨e, he⟩ := (accept_iff_plural_y _).2 h
+  have : PluralParse.parseToks [.var, .var] = none := by rfl
+  rw [this] at he
+  cases he
 
 /-- `a - b - c` is `(a - b) - c`, `!n == 1` is `(!n) == 1`, `a ? b : c ? d : e` nests to the right -/
 example : PluralParse.parse "n-1-2".toList = .ok (.binop (.binop .name .sub (.num 1)) .sub (.num 2)) := by rfl
@@ -113,6 +313,17 @@ theorem tooLong_never (len : Nat) : PluralParse.tooLong len = false := by
 theorem long_numeral_accepted :
     (match PluralParse.parse (List.replicate 4301 '1') with | .ok (.num _) => true | _ => false) = true := by
   decide +kernel
+
+/-- **The statement, end to end**: whenever `parse_plural_expression(s)` succeeds — `s` is then a sentence of plural.y
+    and the returned tree is the one C's grammar gives it — the returned callable at `n`, 32 bits, yields `v` iff lazy
+    C evaluation yields `v` with every evaluated intermediate result in `[0, 2^32)` and no executed division by
+    zero, and otherwise fails with an overflow or division-by-zero error. -/
+theorem accepted_evaluates_as_C (s : List Char) (e : Expr) (h : PluralParse.parse s = .ok e) (n : Int) :
+    (∃ ts, Spec.Tokens s ts ∧ Spec.Amb ts ∧ Spec.D 0 ts e) ∧
+    (∀ v, evalAt 32 n e = .ok v ↔ ∃ tr, mathEval n e = some (v, tr) ∧ InRange (2 ^ 32) tr) ∧
+    (∀ ex, evalAt 32 n e = .error ex → ex = .Overflow ∨ ex = .ZeroDivision) := by
+  obtain ⟨ts, ht, d⟩ := (parse_string_iff s e).1 h
+  exact ⟨⟨ts, ht, PluralParse.D_amb d, d⟩, fun v => eval_iff_C (by decide) n e v, fun ex => eval_error_kinds (by decide) n e ex⟩
 
 /-! Non-vacuity: laziness and failure, concretely. -/
 example : evalAt 32 0 (.boolop .and .name (.binop (.num 1) .div .name)) = .ok 0 := by rfl   -- 0 && 1/0
